@@ -67,6 +67,10 @@ CORPUS = [
     # D25 / 7b49e59: '/%41' -> '/A' but '/A' -> '/a'
     _c("http://a.com/A", ["norm", "escape", 1]), _c("http://a.com/%41", ["case", "lower", 0]), _c("http://a.com/%41", ["norm", "unescape", 3]),
     _c("http://a.com/x?K=%41", ["norm", "unescape", 3]), _c("http://a.com/x#%41b", ["norm", "unescape", 3]), _c("http://a.com/a", ["norm", "escape", 5]),
+    # e39f899: a capital hidden in an escape reached normalize_url's case-sensitive steps
+    _c("http://a.com/Index.html", ["norm", "escape-all", 0]), _c("http://a.com/%49ndex.html", ["norm", "unescape-all", 0]),
+    _c("http://a.com/?ref=fB", ["norm", "escape-all", 0]), _c("http://a.com/?B=1&a=2", ["norm", "escape-all", 0]),
+    _c("http://a.com/x/Default.ASPX", ["norm", "escape-all", 0]), _c("http://a.com/#%2FRoute", ["norm", "unescape-all", 0]),
     # bae86f1: gl / hl kept on facebook.com and youtube.com hosts
     _c("https://www.youtube.com/watch?v=abc", ["item", "hl", "fr", 1]), _c("https://www.youtube.com/watch?v=abc", ["item", "gl", "US", 0]),
     _c("https://www.facebook.com/x?y=1", ["item", "hl", "fr", 0]), _c("https://m.facebook.com/x", ["item", "gl", None, 0]),
@@ -85,7 +89,7 @@ CORPUS = [
     _c("http://a.com/p", ["port", "1"]), _c("http://a.com/p", ["port", "65535"]), _c("http://a.com:8080/p", ["port", None]),
     _c("https://a.com/p", ["port", "80"]), _c("http://u:p@a.com/p", ["port", "8080"]), _c("http://[::1]/p", ["port", "8080"]),
     # witnesses of the known findings (they must keep matching their predicates)
-    _c("http://a.com/Index.html", ["norm", "escape-all", 0]), _c("youtube.com/watch?v=abcdefghijk&t=1", ["swap", "com", "co.uk"], ss=True),
+    _c("youtube.com/watch?v=abcdefghijk&t=1", ["swap", "com", "co.uk"], ss=True),
     _c("http://fr.com/", ["swap", "com", "co.uk"], ss=True),
 ]
 
@@ -433,26 +437,6 @@ def oracle(case):
 # ---------------------------------------------------------------------------------------
 # known findings
 # ---------------------------------------------------------------------------------------
-ESC_RUN = re.compile(r"(?:%[0-9A-Fa-f]{2})+")
-
-
-def has_escaped_capital(x):
-    from urllib.parse import unquote
-
-    for m in ESC_RUN.finditer(x):
-        t = unquote(m.group(0), errors="replace")
-        if t.lower() != t:
-            return True
-    return False
-
-
-def kf_escaped_capital(case, failure):
-    """a capital letter hidden in a percent-escape survives the initial lower-casing, and a
-    case-sensitive decision of normalize_url (index page, query combos, item order) is taken on it"""
-    u, v = _pair(case)
-    return case["T"][0] == "norm" and v is not None and (has_escaped_capital(u) or has_escaped_capital(v)) and " but for T(u) = " in failure
-
-
 def _domain_keyed(x, pa):
     from ural.normalize_url import PER_DOMAIN_QUERY_FILTERS
 
